@@ -24,9 +24,47 @@ def units(rng, n):
     mg = GM.ModelGen(rng, 3, 5, 8)
     out = []
     prelude = xmlgen.simple_model(decl=G.PRELUDE)
+    def chain_xta(old=False):
+        """small processes over a fixed set of location names with full-form and short-form (chained) transitions,
+        controllable and uncontrollable: the remembered source of a chain is file-static state of the grammar"""
+        locs = ["idle", "busy", "off", "done"]
+        edges = []
+        for k in range(rng.randint(1, 5)):
+            arrow = "-u->" if (rng.random() < 0.4 and not old) else "->"
+            body = rng.choice(["{ }", "{ guard a > 0; }", "{ assign a := 1; }" if old else "{ assign a = 1; }"])
+            if k > 0 and rng.random() < 0.45 or (k == 0 and rng.random() < 0.12):
+                edges.append("  %s %s %s" % (arrow, rng.choice(locs), body))         # short form: source of the previous full form
+            else:
+                edges.append("  %s %s %s %s" % (rng.choice(locs), arrow, rng.choice(locs), body))
+        return ("int a;\nprocess P%s {\nstate %s;\ninit %s;\ntrans\n%s;\n}\nsystem P;\n" % (
+            "" if old else "()", ", ".join(locs), rng.choice(locs), ",\n".join(edges)))
+
+    longid = lambda: rng.choice("abcxyz") + "".join(rng.choice("abcdefgh_0123456789") for _ in range(rng.choice([3990, 3999, 4000, 4001, 4500, 9000])))
     for i in range(n):
         r = rng.random()
         m = mg.model()
+        if r < 0.05:
+            out.append(("xta-chain", [Step("parse_doc", 0, rng.choice(["xta_buffer", "xta_file"]), 1, 1, chain_xta())]))
+            continue
+        if r < 0.07:
+            out.append(("xta-chain-old", [Step("parse_doc", 0, "xta_buffer", 0, 1, chain_xta(True))]))
+            continue
+        if r < 0.10:
+            # identifiers around and beyond the lexer's length limit as the first value-carrying token of a call
+            lid = longid()
+            what = rng.random()
+            if what < 0.3:
+                out.append(("long-identifier-old-xta", [Step("parse_doc", 0, "xta_buffer", 0, 1, "int %s;\nprocess P { state A; init A; }\nsystem P;" % lid)]))
+            elif what < 0.6:
+                out.append(("long-identifier-part", [Step("part", 0, rng.choice([0, 1]), rng.choice(["S_DECLARATION", "S_EXPRESSION", "S_PARAMETERS", "S_SELECT"]),
+                                                          rng.choice(["doc", "expr", "pretty"]),
+                                                          rng.choice(["int %s;", "%s + 1", "%s", "int %s", "%s : int[0,1]"]) % lid)]))
+            elif what < 0.8:
+                out.append(("long-identifier-query", [Step("parse_doc", 0, "xml_buffer", 1, 0, Q.MODEL), Step("query", 0, "w", "E<> %s > 0" % lid)]))
+            else:
+                out.append(("long-identifier-xml", [Step("parse_doc", 0, "xml_buffer", 1, 1, xmlgen.simple_model(decl="int %s;" % lid))]))
+            continue
+        r = (r - 0.10) / 0.90
         if r < 0.18:
             out.append(("xml-valid", [Step("parse_doc", 0, rng.choice(["xml_buffer", "xml_file", "xml_fd"]), 1, 1, GM.render_xml(m, rng))]))
         elif r < 0.30:
